@@ -1,11 +1,46 @@
 import vpdriver
-STRING = ["memchr","memcmp","memcpy","memmove","memrchr","memset","strcasecmp","strcasestr","strcat","strchr",
-          "strchrnul","strcmp","strcpy","strcspn","strdup","strlcpy","strlen","strlwr","strncasecmp","strncat",
-          "strncmp","strncpy","strndup","strnlen","strpbrk","strrchr","strspn","strstr","strtok","strupr"]
+
+STRING = ["memchr", "memcmp", "memcpy", "memmove", "memrchr", "memset", "strcasecmp", "strcasestr", "strcat",
+          "strchr", "strchrnul", "strcmp", "strcpy", "strcspn", "strdup", "strlcpy", "strlen", "strlwr",
+          "strncasecmp", "strncat", "strncmp", "strncpy", "strndup", "strnlen", "strpbrk", "strrchr", "strspn",
+          "strstr", "strtok", "strupr"]
+
+# one random target per function (strtok.c holds strtok and strtok_r)
+FUNCS = ["memcpy", "memmove", "memset", "memcmp", "memchr", "memrchr", "strlen", "strnlen", "strcpy", "strncpy",
+         "strlcpy", "strcat", "strncat", "strcmp", "strncmp", "strcasecmp", "strncasecmp", "strchr", "strrchr",
+         "strchrnul", "strstr", "strcasestr", "strspn", "strcspn", "strpbrk", "strtok", "strtok_r", "strdup",
+         "strndup", "strlwr", "strupr"]
+
+QUICK = 60000
+THOROUGH = 1000000
+
 PROP = {
     "harness": ["harness/C08.cpp"],
     "units": vpdriver.libc_units(["string/%s.c" % f for f in STRING]),
-    "targets": [
-        {"name": "memrchr", "quick": 20000, "thorough": 200000, "maxlen": 64},
-    ],
+    "targets": [{"name": "str_enum", "mode": "enum"}]
+               + [{"name": f, "quick": QUICK, "thorough": THOROUGH, "maxlen": 400} for f in FUNCS]
+               + [{"name": "all", "quick": 0, "thorough": 2000000, "maxlen": 400}],
+    "fuzz": [{"name": "all", "secs": 90, "maxlen": 400}],
+}
+
+TEXT = {
+    "technique": "property-based testing: differential against host glibc (definitional references for strlcpy, "
+                 "strlwr, strupr, strdup, strndup), one generator per function, exhaustive enumeration of all array "
+                 "pairs over {00,'a','A',FF}, ASan/UBSan with exactly-sized blocks for read/write bounds, libFuzzer "
+                 "over the multiplexed target in thorough",
+    "level": "Generated-input exploration: each of the 31 functions of compat/libc/string is called through its "
+             "igc_-prefixed object on tens of thousands (thorough: a million) generated argument tuples - contents "
+             "over 0..255 with 00/7F/80/FF and both letter cases over-weighted, lengths 0..96 (1k thorough), every "
+             "start offset 0..15, every memmove overlap distance, n below/equal/above the string length, "
+             "unterminated n-byte arrays, strtok(_r) call sequences with changing delimiter sets - and compared with "
+             "the host function (return value normalised to sign / offset, destination compared byte for byte with "
+             "32-byte canaries on both sides). Read-only operands end exactly at the end (backward scanners: also "
+             "start at the start) of their heap block, so one byte of over-read is a sanitizer failure. All pairs of "
+             "5-byte arrays over {00,'a','A',FF} (6-byte in thorough) are enumerated through every function and "
+             "every n. Absence of defects beyond the explored inputs is not established.",
+    "note": "Trusted: host glibc 2.36 string functions in the C locale as the reference, the three-line reference "
+            "definitions of strlcpy (BSD: returns strlen(src)), strlwr/strupr (ASCII letters only), clang ASan/UBSan. "
+            "The shim is compiled against the host headers but with its own ctype.h (tolower from igris/util/ctype.h). "
+            "Not covered: calls after strtok(_r) has returned NULL with a different delimiter set (the standards "
+            "leave the resume point open), operands longer than 1 KiB, allocation failure in strdup/strndup.",
 }
